@@ -44,6 +44,13 @@ def r1(ctx, tables):
             cur = cur[2][0]
         stages.reverse()
         names = [n_ for n_, _ in stages]
+        if not any(n_ in ("take", "filter", "filter_map") for n_ in names) and _into_result_loop(facts, rule, which, b, p):
+            continue_tail = True
+        else:
+            continue_tail = False
+        if continue_tail:
+            _succeeded_who(rule, which, tables)
+            continue
         src_ok = bool(stages) and names[0] in ("into_values", "values", "into_iter", "iter") and "self.closest_peers" in fmt_short(stages[0][1])
         takes = [i for i, (n_, c_) in enumerate(stages) if n_ == "take"]
         filt = [i for i, (n_, c_) in enumerate(stages) if n_ in ("filter", "filter_map")]
@@ -95,20 +102,87 @@ def r1(ctx, tables):
         # the yielded id is the peer's own key
         rule.check(bool(id_vals) and all(re.fullmatch(r"Key::into_preimage\((\w+)\.key\)", v) for v in id_vals), "[%s] the id returned is the peer's own key preimage" % which,
                    "%s|into_result|id" % which, "[%s] into_result yields %s" % (which, id_vals), loc=b.loc(b.line))
-        # who assigns Succeeded
-        table, meta = tables[which]
-        where = sorted(set(k for k, v in table.items() for s in v if "Succeeded" in s[0]))
-        rule.check(where == [("on_success", "Unresponsive"), ("on_success", "Waiting")], "[%s] Succeeded is assigned only in on_success for a Waiting / Unresponsive peer" % which,
-                   "%s|succeeded|who" % which, "[%s] Succeeded is assigned in %s" % (which, where))
-        # the peer marked is the one that answered: looked up by distance(node_id, target_key)
-        osb = meta["on_success"]["body"]
-        op = meta["on_success"]["prov"]
-        ent = [(bi, t) for bi, t in osb.calls() if callee_matches(t, r"BTreeMap::<.*>::(entry|get_mut|get)$", r"BTreeMap::(entry|get_mut|get)$")]
-        first = [fmt_short(op.operand(t.args[1])) for bi, t in ent]
-        rule.check(any(x in ("Key::distance(node_id, self.target_key)", "Key::distance(self.target_key, node_id)") for x in first),
-                   "[%s] the answering peer is looked up by its distance to the target" % which, "%s|on_success|lookup" % which,
-                   "[%s] on_success looks the answering peer up by %s" % (which, first), loc=osb.loc(osb.line))
+        _succeeded_who(rule, which, tables)
     return rule
+
+
+def _succeeded_who(rule, which, tables):
+    # who assigns Succeeded
+    table, meta = tables[which]
+    where = sorted(set(k for k, v in table.items() for s in v if "Succeeded" in s[0]))
+    rule.check(where == [("on_success", "Unresponsive"), ("on_success", "Waiting")], "[%s] Succeeded is assigned only in on_success for a Waiting / Unresponsive peer" % which,
+               "%s|succeeded|who" % which, "[%s] Succeeded is assigned in %s" % (which, where))
+    # the peer marked is the one that answered: looked up by distance(node_id, target_key)
+    osb = meta["on_success"]["body"]
+    op = meta["on_success"]["prov"]
+    ent = [(bi, t) for bi, t in osb.calls() if callee_matches(t, r"BTreeMap::<.*>::(entry|get_mut|get)$", r"BTreeMap::(entry|get_mut|get)$")]
+    first = [fmt_short(op.operand(t.args[1])) for bi, t in ent]
+    rule.check(any(x in ("Key::distance(node_id, self.target_key)", "Key::distance(self.target_key, node_id)") for x in first),
+               "[%s] the answering peer is looked up by its distance to the target" % which, "%s|on_success|lookup" % which,
+               "[%s] on_success looks the answering peer up by %s" % (which, first), loc=osb.loc(osb.line))
+
+
+def _into_result_loop(facts, rule, which, b, p):
+    """into_result written as a loop (`for peer in self.closest_peers.into_values() { if result.len() >= n { break } if Succeeded { result.push(id) } }`):
+    the same four obligations, read off the loop. Returns False if the body is not of this form (the pipeline checks then report)."""
+    from analysis import writes_into
+    ret = [pl.ops[0].place.local for lhs, kind, pl, blk, _l in p.defs.get(0, ()) if kind == "rv" and pl.k == "use" and pl.ops and pl.ops[0].place is not None and pl.ops[0].place.is_local()]
+    if len(set(ret)) != 1:
+        return False
+    res = ret[0]
+    init = canon(p.local(res))
+    if not (init[0] == "call" and re.search(r"Vec::<.*>::(new|with_capacity)$|Vec::(new|with_capacity)$", short(init[1]))):
+        return False
+    ws = writes_into(b, p, res)
+    pushes = [(bi, t) for bi, m, src, t in ws if m == "push"]
+    if not pushes or len(pushes) != len(ws):
+        return False
+    nexts = [bi for bi, t in b.calls() if callee_matches(t, r"Iterator>::next$", r"Iterator::next$") and "self.closest_peers" in fmt_short(p.operand(t.args[0]))]
+    if not nexts:
+        return False
+    g = Guards(b, p, facts)
+    succ, pm, lt = [], [], []
+
+    def atom(x):
+        if x[0] == "call" and re.search(r"Vec::<.*>::len$|Vec::len$", short(x[1])) and canon(x[2][0]) == init:
+            return "len"
+        if fmt_short(x) == "self.config.num_results":
+            return "n"
+        return None
+    for bi, t, se in g.switches():
+        if se[0] == "discr" and fmt_short(se[1]).endswith(".state") and "Iterator::next" in fmt(se[1]).replace(">::next", "::next"):
+            vn, _ = g.variant_names(bi)
+            succ += [(bi, tb) for v, tb in t.vals if vn.get(v) == "Succeeded"]
+        if fmt_short(se).endswith(".predicate_match"):
+            pm.append((bi, g.bool_edges(bi)[1]))
+        nc = normalised_cmp(se, atom)
+        if nc and set(nc[0]) == {"len", "n"} and nc[0]["len"] == -nc[0]["n"] and nc[2] not in ("==", "!="):
+            ivs = cmp_intervals(nc[0]["len"], nc[1], nc[2])
+            f_, tr_ = g.bool_edges(bi)
+            # len - n on the edge is at most -1
+            for edge, iv in ((tr_, ivs[0]), (f_, ivs[1])):
+                if iv[1] is not None and iv[1] <= -1:
+                    lt.append((bi, edge))
+    push_blocks = [bi for bi, _ in pushes]
+    rule.check(True, "[%s] into_result = a loop over closest_peers values pushing into the result" % which, "%s|into_result|shape" % which, "")
+    after = [b.blocks[bi].term.target for bi in push_blocks if b.blocks[bi].term.target is not None]
+    cap_ok = bool(lt) and not any(bi in b.reachable(0, removed_edges=lt) for bi in push_blocks) and \
+        not any(bi in b.reachable(a_, removed_edges=lt) for a_ in after for bi in push_blocks)
+    rule.check(cap_ok, "[%s] a peer is pushed only while the result is shorter than config.num_results" % which, "%s|into_result|cap" % which,
+               "[%s] into_result can return more than num_results peers (a push is reachable without the length test)" % which, loc=b.loc(b.line))
+    s_ok = bool(succ) and not any(bi in b.reachable(n_, removed_edges=succ) for n_ in nexts for bi in push_blocks)
+    rule.check(s_ok, "[%s] a peer is yielded only if its state is Succeeded" % which, "%s|into_result|succeeded" % which,
+               "[%s] into_result can return a peer that never answered" % which, loc=b.loc(b.line))
+    if which == "predicate":
+        m_ok = bool(pm) and not any(bi in b.reachable(n_, removed_edges=pm) for n_ in nexts for bi in push_blocks)
+        rule.check(m_ok, "[predicate] a peer is yielded only if predicate_match", "predicate|into_result|match",
+                   "[predicate] into_result can return a peer whose record did not satisfy the predicate", loc=b.loc(b.line))
+    ids = [fmt_short(p.operand(t.args[1])) for _, t in pushes]
+    same_peer = all(re.fullmatch(r"Key::into_preimage\(.*Iterator(>)?::next\(.*\.key\)", v.replace("as Some).0", "").replace("(", "(")) or
+                    ("Key::into_preimage(" in v and v.endswith(".key)") and "next(" in v) for v in ids)
+    rule.check(bool(ids) and same_peer, "[%s] the id returned is the peer's own key preimage" % which,
+               "%s|into_result|id" % which, "[%s] into_result yields %s" % (which, ids), loc=b.loc(b.line))
+    return True
 
 
 def r2_r3(ctx, tables):
